@@ -1,5 +1,7 @@
 import CLModel.Proto
 import CLModel.Serialize.Serializer
+import CLModel.Serialize.Fluent
+import CLModel.Serialize.Android
 namespace Ops.C16
 open Proto Ser
 
@@ -100,6 +102,159 @@ def opSerEnts (toks : List String) : String :=
     | none => "bad-args"
   | _ => "bad-args"
 
+/-! ### round 4: Fluent (body of fluent.syntax as input) and Android (entries of the real walk as input) -/
+
+def parseFKind : String → Option P.FKind
+  | "M" => some .message | "T" => some .term | "J" => some .junk | "C" => some .comment | "O" => some .other | _ => none
+
+/-- `<kind> s e ks ke vs ve <comment content|None>` -/
+def parseFBody : Nat → List String → Option (List FBody × List String)
+  | 0, rest => some ([], rest)
+  | n + 1, k :: s :: e :: ks :: ke :: vs :: ve :: c :: rest => do
+    let k ← parseFKind k
+    let s ← parseNat s
+    let e ← parseNat e
+    let ks ← parseInt ks
+    let ke ← parseInt ke
+    let vs ← parseInt vs
+    let ve ← parseInt ve
+    let c ← if c == "None" then pure none else (parseText c).map some
+    let (bs, rest') ← parseFBody n rest
+    pure ({ entry := { kind := k, s := s, e := e, ks := ks, ke := ke, vs := vs, ve := ve }, comment := c } :: bs, rest')
+  | _, _ => none
+
+/-- c16.ftl <ref text> <n> body… <old text> <m> body… <q> items… -> the serialized text -/
+def opFtl (toks : List String) : String :=
+  match toks with
+  | r :: n :: rest =>
+    match (do
+      let r ← parseText r
+      let n ← parseNat n
+      let (rb, rest) ← parseFBody n rest
+      match rest with
+      | o :: m :: rest => do
+        let o ← parseText o
+        let m ← parseNat m
+        let (ob, rest) ← parseFBody m rest
+        match rest with
+        | q :: rest => do
+          let q ← parseNat q
+          let (items, rest) ← parseItems q rest
+          if rest.isEmpty then pure (r, rb, o, ob, items) else none
+        | [] => none
+      | _ => none) with
+    | some (r, rb, o, ob, items) => showText (serializeFluent r.toArray rb o.toArray ob (mkNewData items))
+    | none => "bad-args"
+  | _ => "bad-args"
+
+def parseNodeKind : String → Option NodeKind
+  | "T" => some .text | "D" => some .cdata | "M" => some .comment | "P" => some .pi | "X" => some .other | _ => none
+
+/-- `<kind> <data> <xml>` per child node -/
+def parseNodes : Nat → List String → Option (List XNode × List String)
+  | 0, rest => some ([], rest)
+  | n + 1, k :: d :: x :: rest => do
+    let k ← parseNodeKind k
+    let d ← parseText d
+    let x ← parseText x
+    let (ns, rest') ← parseNodes n rest
+    pure ({ kind := k, data := d, xml := x } :: ns, rest')
+  | _, _ => none
+
+/-- Android entries: `A key pre all open tag <n> (kind data xml)*` | `S key all` | `W all` | `C all val` | `J all` -/
+def parseARecs : Nat → List String → Option (List AEnt × List String)
+  | 0, rest => some ([], rest)
+  | n + 1, toks =>
+    match toks with
+    | "A" :: k :: pre :: a :: op :: tag :: cnt :: rest => do
+      let k ← parseText k
+      let pre ← parseText pre
+      let a ← parseText a
+      let op ← parseText op
+      let tag ← parseText tag
+      let cnt ← parseNat cnt
+      let (ns, rest) ← parseNodes cnt rest
+      let (es, rest') ← parseARecs n rest
+      pure ({ ent := { kind := .entity, key := k, val := [], all := a }, pre := pre,
+              el := some { open_ := op, tag := tag, children := ns } } :: es, rest')
+    | "S" :: k :: a :: rest => do
+      let k ← parseText k
+      let a ← parseText a
+      let (es, rest') ← parseARecs n rest
+      pure ({ ent := { kind := .sticky, key := k, val := a, all := a } } :: es, rest')
+    | "W" :: a :: rest => do
+      let a ← parseText a
+      let (es, rest') ← parseARecs n rest
+      pure ({ ent := { kind := .whitespace, key := [], val := a, all := a } } :: es, rest')
+    | "C" :: a :: v :: rest => do
+      let a ← parseText a
+      let v ← parseText v
+      let (es, rest') ← parseARecs n rest
+      pure ({ ent := { kind := .comment, key := v, val := [], all := a } } :: es, rest')
+    | "J" :: a :: rest => do
+      let a ← parseText a
+      let (es, rest') ← parseARecs n rest
+      pure ({ ent := { kind := .junk, key := [], val := a, all := a } } :: es, rest')
+    | _ => none
+
+def showXErr : XErr → String
+  | .unboundChild => "exc:UnboundLocalError" | .cdataEnd => "exc:ValueError" | .commentDashes => "exc:ValueError"
+
+/-- c16.android <nref> recs… <nold> recs… <nnew> items… -> the serialized text, or the exception -/
+def opAndroid (toks : List String) : String :=
+  match toks with
+  | n :: rest =>
+    match (do
+      let n ← parseNat n
+      let (ref, rest) ← parseARecs n rest
+      match rest with
+      | m :: rest => do
+        let m ← parseNat m
+        let (old, rest) ← parseARecs m rest
+        match rest with
+        | q :: rest => do
+          let q ← parseNat q
+          let (items, rest) ← parseItems q rest
+          if rest.isEmpty then pure (ref, old, items) else none
+        | [] => none
+      | [] => none) with
+    | some (ref, old, items) =>
+      match serializeAndroid ref (old.map (·.ent)) (mkNewData items) with
+      | .ok es => showText (serializeLegacy es)
+      | .error x => showXErr x
+    | none => "bad-args"
+  | _ => "bad-args"
+
+/-- c16.awrap key pre open tag <n> (kind data xml)* raw -> text of the wrapped entity, or the exception (AndroidEntity.wrap alone) -/
+def opAWrap (toks : List String) : String :=
+  match toks with
+  | k :: pre :: op :: tag :: cnt :: rest =>
+    match (do
+      let k ← parseText k
+      let pre ← parseText pre
+      let op ← parseText op
+      let tag ← parseText tag
+      let cnt ← parseNat cnt
+      let (ns, rest) ← parseNodes cnt rest
+      match rest with
+      | [raw] => do
+        let raw ← parseText raw
+        pure (k, pre, ({ open_ := op, tag := tag, children := ns } : XElem), raw)
+      | _ => none) with
+    | some (k, pre, el, raw) =>
+      match androidWrap k pre el raw with
+      | .ok e => showText e.all
+      | .error x => showXErr x
+    | none => "bad-args"
+  | _ => "bad-args"
+
+/-- c16.fcomment <content> -> serialize_comment -/
+def opFComment (toks : List String) : String :=
+  match toks with
+  | [c] => match parseText c with | some c => showText (serializeComment c) | none => "bad-args"
+  | _ => "bad-args"
+
 def ops : List (String × (List String → String)) :=
-  [("ser", opSer), ("ser.ents", opSerEnts)]
+  [("ser", opSer), ("ser.ents", opSerEnts), ("c16.ftl", opFtl), ("c16.android", opAndroid), ("c16.awrap", opAWrap),
+   ("c16.fcomment", opFComment)]
 end Ops.C16
